@@ -1,14 +1,68 @@
 /-
 C03 — a feasible job always completes: no deadlock, livelock or scheduler crash.
-(Part proved so far: crash-freedom of the bookkeeping sites listed below. See DESIGN.md §5 C03.)
+
+Proved here (for ANY order and batching of events, every job, cluster and admissible choice):
+the controller never raises from its own bookkeeping (all six `raise`/KeyError sites of the
+modelled functions are unreachable), `shutdown` is issued exactly once and last, and when the
+loop exits nothing is computable, ongoing or unfetched. The liveness clauses (progress, bounded
+rounds, all tasks completed at exit) hold only under FIFO delivery on the pinned tree
+(known finding C03-last-output-overtakes) and are checked by the watchdog oracle of the check.
 -/
-import EkwVerif.Props.C02
+import EkwVerif.Lemmas.CtrlFinal
 
 namespace EkwVerif.Ctrl
 
-/-- `plan` never raises "double add": a task that was just assigned is not already ongoing. -/
-theorem c03_no_double_add (f : Sem) (j : Job) (cl : Cluster) (hw : cl.ids.Nodup) (s : Sys)
-    (hr : Reachable f j cl s) : s.err ≠ some "ValueError: double add" :=
-  (inv1_reachable f j cl hw s hr).no_double_add
+/-- **The controller never raises from its own bookkeeping**: no `KeyError` on the purging
+tracker (in `notify` and in `plan`), no "removal from ongoing impossible", no "double add", no
+`KeyError` when popping host statuses in `flush_queues`, no "dataset not found in any host". -/
+theorem c03_no_crash (f : Sem) (j : Job) (cl : Cluster) (wf : WF j cl) (s : Sys) (hr : Reachable f j cl s) :
+    s.err = none ∧ s.phase ≠ .crashed := by
+  have h := invAll_reachable f j cl wf s hr
+  have hF := invF_reachable f j cl s hr
+  have herr : s.err = none := by
+    cases he : s.err with
+    | none => rfl
+    | some e =>
+      have hm := hF.err_msg e he
+      simp only [crashMsgs, List.mem_cons, List.not_mem_nil, or_false] at hm
+      rcases hm with rfl | rfl | rfl | rfl | rfl | rfl
+      · exact absurd he h.h4.no_err_notfound
+      · exact absurd he h.h2.no_err_plan
+      · exact absurd he h.h1.no_double_add
+      · exact absurd he h.h4.no_err_pop
+      · exact absurd he h.h2.no_err_tracker
+      · exact absurd he h.h2.no_err_ongoing
+  refine ⟨herr, ?_⟩
+  intro hp
+  have := hF.err_phase.mpr hp
+  simp [herr] at this
+
+/-- **Shutdown exactly once, at the end** (the `finally` of `impl.run`). -/
+theorem c03_shutdown_once (f : Sem) (j : Job) (cl : Cluster) (s : Sys) (hr : Reachable f j cl s) :
+    s.shutdowns = (if s.phase = .finished ∨ s.phase = .crashed then 1 else 0) :=
+  (invF_reachable f j cl s hr).shut
+
+/-- **Nothing is left when the loop exits**: no computable task, no ongoing task, every
+requested output fetched; and every task whose completion was seen has run. -/
+theorem c03_exit_clean (f : Sem) (j : Job) (cl : Cluster) (s : Sys) (hr : Reachable f j cl s)
+    (hfin : s.phase = .finished) :
+    s.ctl.computable = [] ∧ s.ctl.ongoing = [] ∧ ∀ ds, ds ∈ j.ext → (s.ctl.outputs ds).isSome = true := by
+  have hF := (invF_reachable f j cl s hr).fin hfin
+  have h1 := hF.1
+  have h2 := hF.2
+  simp only [Ctl.hasComputable, decide_eq_false_iff_not, Nat.not_lt, Nat.le_zero_eq, List.length_eq_zero_iff] at h1
+  simp only [Ctl.hasAwaitable, Bool.or_eq_false_iff, decide_eq_false_iff_not, Nat.not_lt, Nat.le_zero_eq,
+    List.length_eq_zero_iff, List.any_eq_false] at h2
+  refine ⟨h1, h2.1, ?_⟩
+  intro ds hds
+  have := h2.2 ds hds
+  cases ho : s.ctl.outputs ds <;> simp_all
+
+/-- **No waiting with nothing outstanding.** Whenever the controller blocks in `recv_events`
+because a task is ongoing, the environment has something for it: the task is queued (its body can
+run once its inputs arrive) or it has run and its completion notice is on its way. -/
+theorem c03_ongoing_is_real (f : Sem) (j : Job) (cl : Cluster) (wf : WF j cl) (s : Sys) (hr : Reachable f j cl s)
+    (w : Worker) (t : Task) (ho : (w, t) ∈ s.ctl.ongoing) : (w, t) ∈ s.env.queued ∨ s.env.ran t = true :=
+  (invAll_reachable f j cl wf s hr).h2.flight_queued_or_ran w t (Or.inl ho)
 
 end EkwVerif.Ctrl
